@@ -257,6 +257,8 @@ pub struct VErr {
     pub field: String,
     pub message: String,
     pub display: String,
+    /// Debug rendering: every payload of the structured error (related fields, expected values, ...)
+    pub debug: String,
 }
 
 fn verrs(v: &[SwiftValidationError]) -> Vec<VErr> {
@@ -266,6 +268,7 @@ fn verrs(v: &[SwiftValidationError]) -> Vec<VErr> {
             field: e.field().to_string(),
             message: e.message().to_string(),
             display: e.to_string(),
+            debug: format!("{:?}", e),
         })
         .collect()
 }
@@ -307,7 +310,15 @@ fn body_val<T: SwiftMessageBody>(b: &T) -> BodyVal {
     let mt_string = b.to_mt_string();
     let errs_first = verrs(&b.validate_network_rules(true));
     let errs_all = verrs(&b.validate_network_rules(false));
-    let errs_all_again = verrs(&b.validate_network_rules(false));
+    // repeated several times: a result that depends on hidden state (hash seeds, counters) need not
+    // differ on the very next call; the first differing repetition is kept
+    let mut errs_all_again = verrs(&b.validate_network_rules(false));
+    for _ in 0..6 {
+        if errs_all_again != errs_all {
+            break;
+        }
+        errs_all_again = verrs(&b.validate_network_rules(false));
+    }
     let json_after_validate = serde_json::to_value(b).unwrap_or(Value::Null);
     let mt_string_after_validate = b.to_mt_string();
     BodyVal {
